@@ -46,6 +46,7 @@ def _random(rng, n):
 def generate(rng, tier):
     thorough = tier == "thorough"
     yield from jc.scripted_warm("table")
+    yield from jc.self_joins("table")
     yield from _table([0, 1, 2], 1, 3, 3)
     yield from _table([0, 1], 2, 2, 2)
     yield from _table([-1, -2], 1, 2, 2, "collide")      # hash-equal distinct keys
